@@ -185,7 +185,8 @@ def check_c16(prop, tier, seed):
 
 
 ETAGS = {k: {'C14'} for k in ('EW_FloorOrCeil', 'EW_Draw', 'EW_NoRepeatBoostLe1', 'EW_Order', 'EW_RowsFromInput',
-                              'EW_Count', 'EW_Triples', 'EW_WeightsEqual', 'EW_WeightedUnchanged', 'EW_StoredUnchanged')}
+                              'EW_Count', 'EW_Triples', 'EW_WeightsEqual', 'EW_WeightedUnchanged', 'EW_StoredUnchanged',
+                              'EW_DictSame')}
 
 
 def check_c14(prop, tier, seed):
